@@ -452,6 +452,27 @@ Section WithRec.
     bindR (rec st cur f) (fun st1 fv =>
       bindR (eval_items st1 cur args) (fun st2 vs => apply_val st2 fv vs)).
 
+  (* Switch: every arm is tried in its own fresh scope; the first whose pattern accepts the
+     scrutinee runs its body there; no arm: an error *)
+  Fixpoint switch_arms (st : state) (cur : nat) (v : val) (arms : list (pat * expr)) : result val :=
+    match arms with
+    | [] => throw_err st
+    | (p, body) :: rest =>
+        let '(st1, fr) := push_frame st cur in
+        match p with
+        | PLit z =>
+            match v with
+            | VInt z' => if Z.eqb z z' then rec st1 fr body else switch_arms st1 cur v rest
+            | _ => switch_arms st1 cur v rest
+            end
+        | PBind x => bindR (declare_all st1 fr [(x, v)]) (fun st2 _ => rec st2 fr body)
+        | PWild => rec st1 fr body
+        end
+    end.
+
+  Definition eval_switch (st : state) (cur : nat) (s : expr) (arms : list (pat * expr)) : result val :=
+    bindR (rec st cur s) (fun st1 v => switch_arms st1 cur v arms).
+
   Definition eval_shortcut (kind : nat) (st : state) (cur : nat) (a b : expr) : result val :=
     bindR (rec st cur a) (fun st1 v =>
       let take_rhs :=
@@ -495,6 +516,7 @@ Section WithRec.
     | ECall f args => eval_call st cur f args
     | EPrim p args => bindR (eval_exprs st cur args) (fun st1 vs => prim_apply p vs st1)
     | EEval e1 => eval_result (rec st cur e1)
+    | ESwitch s arms => eval_switch st cur s arms
     end.
 End WithRec.
 
@@ -536,6 +558,14 @@ Proof. reflexivity. Qed.
 Example ex_break2 :
   snd (run 20 (EFor [CIter "x" (EList [(false, EInt 1); (false, EInt 2)])]
                  (FYield (EWhile (EInt 1) (EBreak 1 (Some (plus (V "x") (EInt 10)))))))) = Val (VInt 11).
+Proof. reflexivity. Qed.
+
+(* a name bound by a switch arm is gone after the switch; the outer x is untouched *)
+Example ex_switch_scope :
+  snd (run 20 (ESeq [EDecl "x" (EInt 1);
+                     ESwitch (EInt 5) [(PLit 4, EInt 0); (PBind "x", EDecl "y" (V "x"))];
+                     EList [(false, V "x"); (false, ETry (V "y") "e" (EInt 0))]] false))
+  = Val (VList [VInt 1; VInt 0]).
 Proof. reflexivity. Qed.
 
 (* a break inside a lambda called from a loop breaks that loop: calls absorb only return *)
